@@ -470,6 +470,8 @@ pub trait VxStr {
     fn vx_trim<'a>(&'a self) -> (r: &'a str) ensures (vstd::utf8::is_ascii_chars(self.sv()) ==> r.spec_bytes().len() == r@.len()), r@ == trim_spec(self.sv());
     fn vx_trim_start<'a>(&'a self) -> (r: &'a str) ensures (vstd::utf8::is_ascii_chars(self.sv()) ==> r.spec_bytes().len() == r@.len()), r@ == trim_start_spec(self.sv(), |c: char| ws(c));
     fn vx_trim_end<'a>(&'a self) -> (r: &'a str) ensures (vstd::utf8::is_ascii_chars(self.sv()) ==> r.spec_bytes().len() == r@.len()), r@ == trim_end_spec(self.sv(), |c: char| ws(c));
+    /// `s.matches(c).count()`: the number of occurrences of a character (never more than the length)
+    fn vx_count_char(&self, c: char) -> (r: usize) ensures r as int <= self.sv().len();
     fn vx_trim_end_matches2<'a>(&'a self, c1: char, c2: char) -> (r: &'a str) ensures (vstd::utf8::is_ascii_chars(self.sv()) ==> r.spec_bytes().len() == r@.len()), r@ == trim_end_spec(self.sv(), |c: char| c == c1 || c == c2);
     fn vx_trim_end_matches<'a>(&'a self, c: char) -> (r: &'a str) ensures (vstd::utf8::is_ascii_chars(self.sv()) ==> r.spec_bytes().len() == r@.len()), r@ == trim_end_char_spec(self.sv(), c);
     fn vx_trim_start_matches<'a>(&'a self, c: char) -> (r: &'a str) ensures (vstd::utf8::is_ascii_chars(self.sv()) ==> r.spec_bytes().len() == r@.len()), r@ == trim_start_char_spec(self.sv(), c);
@@ -532,6 +534,7 @@ impl VxStr for str {
     #[verifier::external_body] fn vx_trim<'a>(&'a self) -> (r: &'a str) { self.trim() }
     #[verifier::external_body] fn vx_trim_start<'a>(&'a self) -> (r: &'a str) { self.trim_start() }
     #[verifier::external_body] fn vx_trim_end<'a>(&'a self) -> (r: &'a str) { self.trim_end() }
+    #[verifier::external_body] fn vx_count_char(&self, c: char) -> (r: usize) { self.matches(c).count() }
     #[verifier::external_body] fn vx_trim_end_matches2<'a>(&'a self, c1: char, c2: char) -> (r: &'a str) { self.trim_end_matches([c1, c2]) }
     #[verifier::external_body] fn vx_trim_end_matches<'a>(&'a self, c: char) -> (r: &'a str) { self.trim_end_matches(c) }
     #[verifier::external_body] fn vx_trim_start_matches<'a>(&'a self, c: char) -> (r: &'a str) { self.trim_start_matches(c) }
